@@ -192,6 +192,11 @@ func (p *Plugin) Start(config pipeline.AnyConfig, params *pipeline.ActionPluginP
 	p.keys = parseFields(p.config.KeyFields)
 	p.fields = parseFields(p.config.Fields)
 
+	// every key field is a label of the metric: two key fields with one label name can't be told apart
+	if len(keyMetricLabels(p.keys)) != len(p.keys.fields) {
+		p.logger.Fatal("key fields must have different names after joining their path with '_'", zap.Any("key", p.config.KeyFields))
+	}
+
 	p.registerMetrics(params.MetricCtl, p.config.MetricPrefix)
 }
 
